@@ -1371,3 +1371,75 @@ Lemma can_always_finish_lemma : forall c st,
 Proof.
   intros c st Hc R. apply (can_finish_aux c (S (mu c st))); [lia|]. apply reachable_inv; auto.
 Qed.
+
+(* ------------------------------------------------------------------ host layer *)
+(* Every quantity of the protocol comes from the ProcessCaps field it is named after. *)
+Lemma cap_routing_lemma :
+  (forall s, reader_cap_field s = F_max_capture_bytes_per_stream) /\
+  poll_field = F_wait_poll_ms /\
+  timeout_fallback_field = F_default_timeout_ms /\
+  timeout_upper_field = F_max_timeout_ms /\
+  wait_deadline_is_spec_timeout = true.
+Proof. split; [intros []; reflexivity | repeat split; reflexivity]. Qed.
+
+Lemma effective_timeout_spec : forall hc t,
+  effective_timeout hc t =
+  let v := match t with Some x => x | None => hc F_default_timeout_ms end in
+  if (v =? 0) || (hc F_max_timeout_ms <? v) then None else Some v.
+Proof.
+  intros hc t. unfold effective_timeout.
+  change timeout_fallback_field with F_default_timeout_ms.
+  change timeout_upper_field with F_max_timeout_ms.
+  change timeout_zero_rejected with true. change timeout_upper_strict with true.
+  cbv zeta. cbn [andb]. destruct (_ =? 0); reflexivity.
+Qed.
+
+(* no explicit timeout => the deadline is default_timeout_ms (not the maximum, not the poll interval) *)
+Lemma unset_timeout_is_default_lemma : forall hc,
+  0 < hc F_default_timeout_ms <= hc F_max_timeout_ms ->
+  effective_timeout hc None = Some (hc F_default_timeout_ms).
+Proof.
+  intros hc H. rewrite effective_timeout_spec. cbv zeta.
+  destruct (Z.eqb_spec (hc F_default_timeout_ms) 0); [lia|].
+  destruct (Z.ltb_spec (hc F_max_timeout_ms) (hc F_default_timeout_ms)); [lia|]. reflexivity.
+Qed.
+
+Lemma explicit_timeout_lemma : forall hc t,
+  effective_timeout hc (Some t) =
+  if (t =? 0) || (hc F_max_timeout_ms <? t) then None else Some t.
+Proof. intros hc t. rewrite effective_timeout_spec. reflexivity. Qed.
+
+Lemma mk_cfg_fields_lemma : forall hc b pc o1 o2 code c,
+  mk_cfg hc b pc o1 o2 code = Some c ->
+  pol1 c = b_pol1 b /\ pol2 c = b_pol2 b /\
+  cap c = hc F_max_capture_bytes_per_stream /\ poll c = hc F_wait_poll_ms /\
+  timeout c = (match b_timeout b with Some t => t | None => hc F_default_timeout_ms end) /\
+  timeout c <> 0 /\ timeout c <= hc F_max_timeout_ms /\
+  out1 c = o1 /\ out2 c = o2 /\ ecode c = code.
+Proof.
+  intros hc b pc o1 o2 code c H. unfold mk_cfg in H. rewrite effective_timeout_spec in H.
+  cbv zeta in H.
+  set (v := match b_timeout b with Some x => x | None => hc F_default_timeout_ms end) in *.
+  destruct (Z.eqb_spec v 0); cbn [orb] in H; [discriminate|].
+  destruct (Z.ltb_spec (hc F_max_timeout_ms) v); [discriminate|].
+  inversion H; subst c. cbn. repeat split; auto.
+Qed.
+
+(* the protocol theorem at host level: a Timeout of a command that never called timeout_ms() is
+   reported only once default_timeout_ms have passed, and passing it (with the child still
+   running at the test) forces the Timeout *)
+Lemma unset_timeout_deadline_lemma : forall hc b pc o1 o2 code c sched,
+  mk_cfg hc b pc o1 o2 code = Some c -> b_timeout b = None -> cfg_ok c ->
+  (w (run c sched (init c)) = WDone (RErr ETimeout) ->
+   exists t, g_tmo (run c sched (init c)) = Some t /\ hc F_default_timeout_ms <= t) /\
+  (forall st, w st = WDeadline -> hc F_default_timeout_ms <= clock st ->
+   exists st', step c st Waiter = Some st' /\
+     forall sched' r, w (run c sched' st') = WDone r -> r = RErr ETimeout).
+Proof.
+  intros hc b pc o1 o2 code c sched Hm Hb Hc.
+  destruct (mk_cfg_fields_lemma _ _ _ _ _ _ _ Hm) as (_ & _ & _ & _ & Ht & _).
+  rewrite Hb in Ht. split.
+  - intros Hw. pose proof (error_is_justified_lemma c sched ETimeout Hc Hw) as (t & A & B & _).
+    exists t. split; auto. lia.
+  - intros st Hw Hcl. apply deadline_forces_timeout_lemma; auto. lia.
+Qed.
